@@ -165,7 +165,7 @@ std::vector<std::pair<std::string, std::string>> vg_reports(const std::string &t
         else if (l.find("Use of uninitialised value") == 0) kind = "uninitialised-read";
         else if (l.find("Invalid read") == 0) kind = "invalid-read";
         else if (l.find("Invalid write") == 0) kind = "invalid-write";
-        else if (l.find("Syscall param") == 0) kind = "uninitialised-syscall-param";
+        else if (l.find("Syscall param") == 0) kind = "uninitialised-read";   // e.g. the harness printing a garbage Result
         else if (l.find("Source and destination overlap") == 0) kind = "overlap";
         else if (l.find("Invalid free") == 0 || l.find("Mismatched free") == 0) kind = "invalid-free";
         if (!kind) continue;
@@ -223,9 +223,10 @@ void run_datagram_(Ctx &c, vh::Rng &r, const c15gen::Dg &dg, const std::string &
             if (d == 0) d = 77;
             c15gen::set16(b, 0, (id + d) & 0xffff);
         } else if (!dg.keep_id) c15gen::set16(b, 0, id);
+        // the id bytes are part of what a pointer into the header reads, so each run is classified on its own bytes
+        int depth = c15ref::chain_depth(b.data(), b.size());
+        risky = depth > 16;
         if (run == 0) {
-            int depth = c15ref::chain_depth(b.data(), b.size());
-            risky = depth > 16;
             vh::counter("dgclass_" + dg.tag);
             if (depth >= (1 << 30)) vh::counter("datagrams_with_pointer_cycle");
             else if (depth > 16) vh::counter("datagrams_with_pointer_chain_over_16");
@@ -233,6 +234,7 @@ void run_datagram_(Ctx &c, vh::Rng &r, const c15gen::Dg &dg, const std::string &
             ++ps.n_dg;
         }
         const uint8_t *pat = kPatterns[run == 0 ? pa : pb];
+        if (vh::st().args.verbose) fprintf(stderr, "[c15] next datagram: class %s run %d %s %s\n", dg.tag.c_str(), run, risky ? "isolated" : "in-process", hexs(b).c_str());
         if (risky) {
             if (memcheck) { vh::counter("memcheck_skipped_isolated_datagrams"); c.cancel_id(id, "cleanup"); return; }
             ++ps.n_isolated;
